@@ -214,7 +214,11 @@ class C12(BlockBase):
             yield self.mk_items(items, gen.Spelling(), rng.random() < 0.8, "ast")
 
     def first_line_unwrap(self, lay):
-        return bool(lay) and lay[0].role == "open" and lay[0].el is not None and lay[0].el.unwrap and lay[0].removed
+        """the opening tag of an unwrapped ready element is on line 1, or on line 2 after an empty line 1
+        (the line break before it is byte 0, which the finders never examine)"""
+        def is_u(l):
+            return l.role == "open" and l.el is not None and l.el.unwrap and l.removed
+        return bool(lay) and (is_u(lay[0]) or (len(lay) > 1 and lay[0].text == "" and is_u(lay[1])))
 
     def oracle(self, case, impl, spec):
         k, v = parse_reply(impl[0])
@@ -805,6 +809,16 @@ class C19(Base):
                 yield from self.build(hists)
                 hists = []
         yield from self.build(hists)
+
+    def region_tag_at_end_of_code_line(self, case, verdict):
+        """some line has non-blank text before a tag and ends with a tag (an element closed, or opened, at the end of a code line)"""
+        if verdict.get("fail") != "C19-composition":
+            return False
+        for l in case.meta["src"].split("\n"):
+            t = l.strip(" \t")
+            if t.endswith(">") and t.find("<") > 0:
+                return True
+        return False
 
     def oracle(self, case, impl, spec):
         ds = case.meta["_docs"]
